@@ -106,6 +106,21 @@ func runC20Server(t *testing.T, rng *rand.Rand, rec *sim.Rec, tier string, caseN
 			}
 		},
 	}
+	// every other case the TCP listener has a generator of its own: another relay address, another
+	// port range - what a client of that listener is given comes from there
+	lo2, hi2 := lo, hi
+	relay2 := sim.RelayIP4
+	if caseNo%2 == 1 {
+		lo2 = 1024 + (lo+5000)%60000
+		hi2 = lo2 + width
+		relay2 = net.IPv4(203, 0, 113, 9).To4()
+		cfg.MakeGenTCP = func(n *simnet.Net) turn.RelayAddressGenerator {
+			return &turn.RelayAddressGeneratorPortRange{
+				RelayAddress: relay2, Address: "0.0.0.0", MinPort: uint16(lo2), MaxPort: uint16(hi2), MaxRetries: retries,
+				Rand: &scriptRand{mode: "prng", rng: rand.New(rand.NewSource(int64(lo2)))}, Net: &simnet.VNet{N: n, HostIP4: sim.RelayIP4},
+			}
+		}
+	}
 	w, err := sim.NewWorld(cfg, rec, rng, true)
 	if err != nil {
 		t.Fatal(err)
@@ -151,13 +166,17 @@ func runC20Server(t *testing.T, rng *rand.Rand, rec *sim.Rec, tier string, caseN
 			refused++
 			rec.FP("server/%s/refused-%d/width=%d/live=%d", how, codeOfMsg(resp), width, min(len(live), 8))
 			busy := 0
-			for p := lo; p <= hi; p++ {
+			plo, phi := lo, hi
+			if tcp {
+				plo, phi = lo2, hi2
+			}
+			for p := plo; p <= phi; p++ {
 				if (tcp && w.Net.TCPListening(sim.RelayIP4, p)) || (!tcp && w.Net.UDPBound(sim.RelayIP4, p)) {
 					busy++
 				}
 			}
 			if busy == 0 && o.EvenPort == nil {
-				rec.Violate("gen-spurious-error", "server/all-free", "server with port range [%d,%d] (MaxRetries %d): %s Allocate answered %d although every port of the range is free", lo, hi, retries, how, codeOfMsg(resp))
+				rec.Violate("gen-spurious-error", "server/all-free", "listener with port range [%d,%d] (MaxRetries %d): %s Allocate answered %d although every port of the range is free", plo, phi, retries, how, codeOfMsg(resp))
 			}
 
 			continue
@@ -167,11 +186,15 @@ func runC20Server(t *testing.T, rng *rand.Rand, rec *sim.Rec, tier string, caseN
 			continue // (the model has reported it)
 		}
 		granted++
-		if relay.Port < lo || relay.Port > hi {
-			rec.Violate("gen-port-out-of-range", "server/"+how, "server with port range [%d,%d]: %s Allocate was given relayed port %d", lo, hi, how, relay.Port)
+		wlo, whi, wip := lo, hi, sim.RelayIP4
+		if c.IsTCP {
+			wlo, whi, wip = lo2, hi2, relay2 // (the client came in through the TCP listener)
 		}
-		if !relay.IP.Equal(sim.RelayIP4) {
-			rec.Violate("gen-advertised-ip", "server/"+how, "server with relay address %s: %s Allocate was given %s", sim.RelayIP4, how, relay)
+		if relay.Port < wlo || relay.Port > whi {
+			rec.Violate("gen-port-out-of-range", "server/"+how, "listener with port range [%d,%d]: %s Allocate was given relayed port %d", wlo, whi, how, relay.Port)
+		}
+		if !relay.IP.Equal(wip) {
+			rec.Violate("gen-advertised-ip", "server/"+how, "listener with relay address %s: %s Allocate was given %s", wip, how, relay)
 		}
 		if o.EvenPort != nil && relay.Port%2 != 0 {
 			rec.Violate("gen-requested-port", "server/"+how, "EVEN-PORT Allocate was given odd relayed port %d", relay.Port)
